@@ -20,7 +20,7 @@ def load_index():
         return json.load(f)
 
 
-def run_mutant(m, repo, pids):
+def run_mutant(m, repo, pids, want=('violation',)):
     """-> {'status': 'fired'|'missed'|'skipped'|'build-failed', per property results}"""
     d, tree = scratch.make_copy(repo)
     try:
@@ -35,8 +35,8 @@ def run_mutant(m, repo, pids):
         res = {}
         for pid in pids:
             insts = props.evaluate(pid, ctx)
-            v = [i for i in insts if i.verdict == VIOLATION]
-            res[pid] = [{'rule': i.rule, 'key': i.key} for i in v]
+            v = [i for i in insts if i.verdict in want]
+            res[pid] = [{'rule': i.rule, 'key': i.key, 'verdict': i.verdict} for i in v]
         return {'status': 'ran', 'violations': res}
     finally:
         scratch.remove(d)
